@@ -328,6 +328,10 @@ class Runner:
                   'D=$(cd "$(dirname "$0")" && pwd)', 'T=$(mktemp -d)', 'trap \'rm -rf "$T"\' EXIT']
         script.append('# the real code is built at the shipped -O3 and at -O0 (uninitialised-memory and UB dependent')
         script.append('# behaviour differs between levels); the violation is reproduced if either build shows it')
+        # symbol renamings used on the IR route (e.g. the tracking allocator) apply to the real files of the replay as well
+        ren = {}
+        for l in q.ll: ren.update(l.rename)
+        rflags = ' '.join(shlex.quote('-D%s=%s' % kv) for kv in sorted(ren.items()))
         script.append('worst=0')
         script.append('for OPT in -O3 -O0; do')
         objs = []
@@ -359,15 +363,15 @@ class Runner:
             except BuildError:
                 return 'error', 'cannot build shim'
             cc = 'gcc -std=%s' % q.std if l.lang == 'c' else 'g++ -std=c++11 -fno-exceptions -fno-rtti -fpermissive'
-            script.append('%s $OPT -w %s %s %s %s -c $D/shim%d.c -o $T/l%d.o || exit 99' % (cc, ' '.join(san), ' '.join(l.flags), inc, ' '.join(qflags(dd)), k, k))
+            script.append('%s $OPT -w %s %s %s %s %s -c $D/shim%d.c -o $T/l%d.o || exit 99' % (cc, ' '.join(san), ' '.join(l.flags), inc, ' '.join(qflags(dd)), rflags, k, k))
             objs.append('$T/l%d.o' % k)
         hsrc = os.path.join(VERIF, 'harness', q.harness)
         script.append('gcc -std=%s $OPT -w %s %s -I$D %s -c %s -o $T/h.o || exit 99' % (q.std, ' '.join(san), inc, ' '.join(qflags(d)), hsrc))
         link = 'g++' if any(l.lang != 'c' for l in q.ll) else 'gcc'
         # the rest of the real library, as an archive: members are pulled in only for symbols still undefined
         script.append('rm -f $T/libskinny.a; for f in %s/src/*.c; do b=$(basename $f .c); fl=-msse2; case $b in *vec256) fl=-mavx2;; skinny-internal) fl="-msse2 -mavx2";; esac; '
-                      'gcc -std=%s $OPT -w %s $fl %s %s -c $f -o $T/lib_$b.o & done; wait; ar rc $T/libskinny.a $T/lib_*.o'
-                      % (REPO, q.std, ' '.join(san), inc, ' '.join(qflags(cfg_defs(q.cfg)))))
+                      'gcc -std=%s $OPT -w %s $fl %s %s %s -c $f -o $T/lib_$b.o & done; wait; ar rc $T/libskinny.a $T/lib_*.o'
+                      % (REPO, q.std, ' '.join(san), inc, ' '.join(qflags(cfg_defs(q.cfg))), rflags))
         if q.replay == 'ir':
             script.append('gcc -std=gnu99 $OPT -w -c %s -o $T/nd.o || exit 99' % os.path.join(VERIF, 'harness', 'replay_nondet.c'))
             objs.append('$T/nd.o')
